@@ -7,6 +7,7 @@ import SimuVerif.Lemmas.SurfaceCheckers
 import SimuVerif.Model.RemeshChecks
 import SimuVerif.Model.RemeshMergeChecks
 import SimuVerif.Lemmas.RemeshMerge
+import SimuVerif.Lemmas.RemeshMerge9
 /-
   C01 — cell surfaces stay closed, consistently oriented 2-manifolds under remeshing.
 
@@ -279,6 +280,53 @@ theorem merge_checked {fn : Fn R} {k : SplitConsts R} {c c' : Cell R} {e : Edge}
       FaceFreeOk c' ∧ EdgeIdxComplete c' := by
   obtain ⟨kA, kB, FA, NA, FB, NB, H, hI, t1, t2, h1, h2, hl⟩ := merge_checks_sound c e hc
   exact ⟨mergeEdge_abs h H, mergeEdge_inv h H hI h1 h2 hl, (mergeEdge_refines h H).2.1, (mergeEdge_refines h H).2.2⟩
+
+/-! #### the guard of the collapse
+
+  `can_be_merged` walks the two fans (`get_connected_nodes`), sorts the two neighbour lists with `Array.qsort` and counts
+  the common neighbours.  `SortSpecAt c e` = "the two sorted lists of this call are sorted" is the one fact about
+  `Array.qsort` that is not proved (only "is a permutation" is); the driver evaluates it (`chkSortSpec`). -/
+
+/-- **the code collapses exactly the edges that satisfy the link condition** -/
+theorem merge_guard_iff {c : Cell R} {e E : Edge} (hI : EdgeIdxComplete c)
+    (hentry : getEdge c e.n1 e.n2 = some E)
+    (hord : (E.f1 = e.f1 ∧ E.f2 = e.f2) ∨ (E.f1 = e.f2 ∧ E.f2 = e.f1))
+    (mA : VertexManifold c e.n1) (mB : VertexManifold c e.n2) (hs : SortSpecAt c e) {t1 t2 : Tri}
+    (h1 : findDir (Remesh.abs c) e.n1 e.n2 = some t1) (h2 : findDir (Remesh.abs c) e.n2 e.n1 = some t2) :
+    canBeMerged c e = .ok true ↔ LinkCond (Remesh.abs c) e.n1 e.n2 (opp t1 e.n1 e.n2) (opp t2 e.n2 e.n1) :=
+  Remesh.merge_guard_iff hI hentry hord mA mB hs h1 h2
+
+theorem canBeMerged_sound {c : Cell R} {e E : Edge} (hI : EdgeIdxComplete c)
+    (hentry : getEdge c e.n1 e.n2 = some E)
+    (hord : (E.f1 = e.f1 ∧ E.f2 = e.f2) ∨ (E.f1 = e.f2 ∧ E.f2 = e.f1))
+    (mA : VertexManifold c e.n1) (mB : VertexManifold c e.n2) (hs : SortSpecAt c e) {t1 t2 : Tri}
+    (h1 : findDir (Remesh.abs c) e.n1 e.n2 = some t1) (h2 : findDir (Remesh.abs c) e.n2 e.n1 = some t2)
+    (h : canBeMerged c e = .ok true) :
+    LinkCond (Remesh.abs c) e.n1 e.n2 (opp t1 e.n1 e.n2) (opp t2 e.n2 e.n1) :=
+  Remesh.canBeMerged_sound hI hentry hord mA mB hs h1 h2 h
+
+/-- `can_be_merged` returns (never `fuel` / `badopt` / `ub`) when the index is complete and both end nodes are manifold -/
+theorem canBeMerged_defined {c : Cell R} {e E : Edge} (hI : EdgeIdxComplete c)
+    (hentry : getEdge c e.n1 e.n2 = some E)
+    (hord : (E.f1 = e.f1 ∧ E.f2 = e.f2) ∨ (E.f1 = e.f2 ∧ E.f2 = e.f1))
+    (mA : VertexManifold c e.n1) (mB : VertexManifold c e.n2) : ∃ r, canBeMerged c e = .ok r :=
+  Remesh.canBeMerged_defined hI hentry hord mA mB
+
+/-- the Boolean test `chkSortSpec` the driver evaluates implies `SortSpecAt` -/
+theorem sortspec_check_sound (c : Cell R) (e : Edge) (h : chkSortSpec c e = true) : SortSpecAt c e :=
+  sortSpecAt_of_B h
+
+/-- **the collapse as `refine_mesh` performs it** (guard `can_be_merged` true, then `merge_edge` returned): the link
+    condition is not a hypothesis any more -/
+theorem merge_executed_refines {fn : Fn R} {k : SplitConsts R} {c c' : Cell R} {e E : Edge} {chk chk' : CheckSet}
+    (hg : canBeMerged c e = .ok true) (h : mergeEdge fn k c e chk = .ok (c', chk'))
+    (hI : EdgeIdxComplete c) (hf : FaceFreeOk c) (hentry : getEdge c e.n1 e.n2 = some E)
+    (hord : (E.f1 = e.f1 ∧ E.f2 = e.f2) ∨ (E.f1 = e.f2 ∧ E.f2 = e.f1))
+    (mA : VertexManifold c e.n1) (mB : VertexManifold c e.n2)
+    (hfresh : Fresh (Remesh.abs c) (Simu.C11.newSlot c)) (hInv : Inv (Remesh.abs c)) (hs : SortSpecAt c e) :
+    Remesh.abs c' = collapseT (Remesh.abs c) e.n1 e.n2 (Simu.C11.newSlot c) ∧ Inv (Remesh.abs c') ∧
+      FaceFreeOk c' ∧ EdgeIdxComplete c' :=
+  mergeEdge_executed hg h hI hf hentry hord mA mB hfresh hInv hs
 
 /-! #### the edge index stays sound and complete under all three operations -/
 
